@@ -125,6 +125,26 @@ pub fn run_c13(cx: &mut Cx) {
             }
         });
         deliver(cx, holder, issued.clone(), (*issued).clone(), "none".into(), single);
+        // a valid signature on the same statement whose v has a leading zero octet (to_bytes writes v
+        // at its natural length): it must survive its byte encoding and verify like any other
+        if let Some((e2, s2, v2, k)) = short_v_variant(&issued.pk, &issued.e, &issued.s, &issued.v) {
+            cx.count("probe.short_v_signature_constructed");
+            let (iss3, e3, s3, v3) = (issued.clone(), e2.clone(), s2.clone(), v2.clone());
+            cx.step(holder, "short-v-bytes-roundtrip", StepOpts::default(), move || {
+                let sig = sig_from_parts(&e3, &s3, &v3).ok_or("construct")?;
+                let bytes = sig.to_bytes();
+                let back = Signature::<Sch>::from_bytes(&bytes);
+                let c = Cred { pk: iss3.pk.clone(), bases: iss3.bases.clone(), msgs: iss3.msgs.clone(), e: e3.clone(), s: s3.clone(), v: v3.clone() };
+                Ok::<_, String>((sig_parts(&back) == (e3.clone(), s3.clone(), v3.clone()), verify_cred(&c, false)))
+            }, move |cx, st| {
+                cx.eval(&[b"short-v", v2.to_string_radix(16).as_bytes()], true);
+                cx.count("fault.codec_bytes_short_v");
+                match st.out {
+                    Ok(Ok((true, true))) => cx.count("verdict.MustAccept.accept"),
+                    other => cx.violation("C13", "codec/bytes/short-v-roundtrip".into(), format!("signature re-randomised with k={k} (v has {} bits): {other:?}", v2.significant_bits())),
+                }
+            });
+        }
         // selective disclosure for every subset of hidden positions
         let subsets: Vec<u64> = (0..(1u64 << n)).collect();
         for mask in subsets {
